@@ -191,7 +191,7 @@ psutil_proc_oneshot_info(PyObject *self, PyObject *args) {
         // GIDs
         (long)kp.ki_rgid,                // (long) real gid
         (long)kp.ki_groups[0],           // (long) effective gid
-        (long)kp.ki_svuid,               // (long) saved gid
+        (long)kp.ki_svgid,               // (long) saved gid
         //
         kp.ki_tdev,                      // (int or long long) tty nr
         PSUTIL_TV2DOUBLE(kp.ki_start),   // (double) create time
@@ -224,7 +224,7 @@ psutil_proc_oneshot_info(PyObject *self, PyObject *args) {
         // GIDs
         (long)kp.p_rgid,                 // (long) real gid
         (long)kp.p_groups[0],            // (long) effective gid
-        (long)kp.p_svuid,                // (long) saved gid
+        (long)kp.p_svgid,                // (long) saved gid
         //
         kp.p_tdev,                       // (int) tty nr
         PSUTIL_KPT2DOUBLE(kp.p_ustart),  // (double) create time
